@@ -248,6 +248,9 @@ class _InstallWrapper(IpcCommand):
             insoptions=self.insoptions_default, diroptions=self.diroptions_default
         )
 
+        self._init_coroutines()
+
+    def _init_coroutines(self):
         # initialize file/dir creation coroutines
         self.install = self._install().send
         self.install_dirs = self._install_dirs().send
@@ -261,6 +264,9 @@ class _InstallWrapper(IpcCommand):
 
     def parse_install_options(self):
         """Parse install command options."""
+        # a coroutine that raised (a reported, nonfatal failure) is finished for
+        # good, and a fallback chosen for one request must not stick to the next
+        self._init_coroutines()
         self.insoptions = arghparse.Namespace()
         self.diroptions = arghparse.Namespace()
         if self.opts.insoptions and not self._parse_install_options(
